@@ -32,6 +32,8 @@ struct Input {
     src: usize,
     desc: String,
     raw: Option<(u32, u32, u32, u32, Option<u64>)>,
+    /// structural offsets of the input (field boundaries), when known
+    offsets: Vec<usize>,
 }
 
 fn mutate(rng: &mut Rng, data: &mut Vec<u8>) -> String {
@@ -88,14 +90,15 @@ fn gen(rng: &mut Rng, tier: Tier) -> Input {
                             src,
                             desc: format!("raw payload of: {}", b.desc),
                             raw: Some((b.props.lc, b.props.lp, b.props.pb, *rng.pick(&[7u32, 64, 4096]), size)),
+                            offsets: vec![],
                         };
                     }
-                    return Input { dec: 0, data: b.file, options: b.options, src, desc: b.desc, raw: None };
+                    return Input { dec: 0, data: b.file, options: b.options, src, desc: b.desc, raw: None, offsets: vec![] };
                 }
             }
             1 => {
                 if let Some(i) = c05::gen_input(rng, tier, 3000) {
-                    return Input { dec: 0, data: i.file, options: i.options, src, desc: i.desc, raw: None };
+                    return Input { dec: 0, data: i.file, options: i.options, src, desc: i.desc, raw: None, offsets: vec![] };
                 }
             }
             2 | 3 => {
@@ -111,7 +114,7 @@ fn gen(rng: &mut Rng, tier: Tier) -> Input {
                         data.extend_from_slice(&rng.bytes(n));
                         desc = format!("{} | {} trailing bytes", desc, n);
                     }
-                    return Input { dec: if rng.chance(1, 2) { 1 } else { 4 }, data, options: sut::default_options(), src, desc, raw: None };
+                    return Input { dec: if rng.chance(1, 2) { 1 } else { 4 }, data, options: sut::default_options(), src, desc, raw: None, offsets: vec![] };
                 }
             }
             4 | 5 | 6 => {
@@ -134,11 +137,12 @@ fn gen(rng: &mut Rng, tier: Tier) -> Input {
                     spec = crate::refmodel::xz::XzSpec::new(spec.header_flags[1], blocks);
                     desc = format!("{} | header padding enlarged", desc);
                 }
-                let mut data = spec.serialize().0;
+                let (mut data, layout) = spec.serialize();
+                let offsets: Vec<usize> = layout.fields.iter().flat_map(|f| [f.start, f.end]).collect();
                 if src == 6 {
                     desc = format!("{} | {}", desc, mutate(rng, &mut data));
                 }
-                return Input { dec: 2, data, options: sut::default_options(), src, desc, raw: None };
+                return Input { dec: 2, data, options: sut::default_options(), src, desc, raw: None, offsets };
             }
             _ => {
                 let n = rng.range(0, 200) as usize;
@@ -147,7 +151,7 @@ fn gen(rng: &mut Rng, tier: Tier) -> Input {
                 if dec == 2 && n >= 12 && rng.chance(1, 2) {
                     data[..6].copy_from_slice(&crate::refmodel::xz::HEADER_MAGIC);
                 }
-                return Input { dec, data, options: sut::default_options(), src, desc: format!("{} random bytes", n), raw: None };
+                return Input { dec, data, options: sut::default_options(), src, desc: format!("{} random bytes", n), raw: None, offsets: vec![] };
             }
         }
     }
@@ -200,6 +204,15 @@ fn fam_inputs(ctx: &CaseCtx, cov: &mut Cov) -> CaseOut {
         kinds.push(ReaderKind::Buf(cap));
     }
     kinds.push(ReaderKind::Buf(rng.range(65, 9000) as usize));
+    // capacities equal to structural offsets (+-1): a refill then falls exactly on a
+    // field boundary, and requests of at least the capacity bypass the buffer
+    let mut caps: Vec<usize> = inp.offsets.iter().flat_map(|&o| [o.saturating_sub(1), o, o + 1]).filter(|&c| c > 64 && c <= inp.data.len() + 1).collect();
+    caps.sort();
+    caps.dedup();
+    for c in caps.into_iter().take(60) {
+        kinds.push(ReaderKind::Buf(c));
+        cov.name("reader.capacity_at_structural_offset", 1);
+    }
     for k in [1usize, 2, 3, 7, 64] {
         kinds.push(ReaderKind::Chaos { seed: rng.next(), k });
     }
@@ -279,7 +292,7 @@ pub fn monitor(tier: Tier) -> Monitor {
     Monitor {
         id: "C13",
         level: "exploration",
-        rule: "per input (valid and invalid; 8 sources: C08 table cells, C05 inputs, valid / mutated LZMA2 chunk sequences, valid .xz files incl. enlarged header padding, bit-flipped / truncated / extended .xz, random bytes) and decoder (5), the slice-reader run is compared with Cursor, BufReader of EVERY capacity 1..64 (1..16 for inputs > 4000 bytes) plus one random large capacity, and five randomised short-read/short-fill readers: same verdict; on success same bytes and same consumed count; evaluations = decoder runs; distinct by hash of (input, decoder, options)",
+        rule: "per input (valid and invalid; 8 sources: C08 table cells, C05 inputs, valid / mutated LZMA2 chunk sequences, valid .xz files incl. enlarged header padding, bit-flipped / truncated / extended .xz, random bytes) and decoder (5), the slice-reader run is compared with Cursor, BufReader of EVERY capacity 1..64 (1..16 for inputs > 4000 bytes), one random large capacity, capacities equal to every field boundary of generated .xz files (+-1), and five randomised short-read/short-fill readers: same verdict; on success same bytes and same consumed count; evaluations = decoder runs; distinct by hash of (input, decoder, options)",
         assumptions: vec![
             "differential oracle: the slice-reader run of lzma-rs itself".into(),
             "on Err, consumed counts / partial output / error text may differ for reasons internal to std's read_exact; error-text differences are recorded as warnings only".into(),
